@@ -192,7 +192,20 @@ loom_get_cpu(struct loom *loom, int index)
 	if (index == -1)
 		return &loom->vcpu;
 
-	if (index < 0 || (size_t) index >= loom->ncpus)
+	if (index < 0)
+		return NULL;
+
+	/* The array is only populated in loom_init_end(), search the CPUs
+	 * by index while the metadata is still being loaded */
+	if (loom->cpus_array == NULL) {
+		for (struct cpu *c = loom->cpus; c; c = c->hh.next) {
+			if (c->index == index)
+				return c;
+		}
+		return NULL;
+	}
+
+	if ((size_t) index >= loom->ncpus)
 		return NULL;
 
 	return loom->cpus_array[index];
